@@ -58,7 +58,9 @@ def gen_type(rng, depth, counter):
         return {'k': 'simple', 'base': base, 'fixed': rng.choice(BASES[base][1]) if rng.random() < 0.12 else None}
     if r < 0.5:
         base = rng.choice(['ilist', 'dlist']) if rng.random() < 0.4 else rng.choice(list(BASES))
-        return {'k': 'sc', 'base': base, 'attrs': gen_attrs(rng, counter, at_least=rng.choice([0, 1]))}
+        return {'k': 'sc', 'base': base, 'attrs': gen_attrs(rng, counter, at_least=rng.choice([0, 1])),
+                # a fixed value on an element whose type is a complex type with simple content
+                'fixed': rng.choice(BASES[base][1]) if base in BASES and rng.random() < 0.25 else None}
     parts = []
     for _ in range(rng.randint(1, 4) if rng.random() < 0.9 else 0):      # (0: an empty content, attributes only)
         counter[0] += 1
@@ -102,7 +104,8 @@ def render_decl(d, top=False):
     if d['type']['k'] == 'simple':
         fx = ' fixed="%s"' % d['type']['fixed'] if d['type'].get('fixed') else ''
         return '<xs:element name="%s" type="%s"%s%s/>' % (d['name'], BASES[d['type']['base']][0], occ, fx)
-    return '<xs:element name="%s"%s>%s</xs:element>' % (d['name'], occ, render_type(d['type']))
+    fx = ' fixed="%s"' % d['type']['fixed'] if d['type']['k'] == 'sc' and d['type'].get('fixed') else ''
+    return '<xs:element name="%s"%s%s>%s</xs:element>' % (d['name'], occ, fx, render_type(d['type']))
 
 
 def render_schema(s):
